@@ -29,8 +29,15 @@ fn arg<T: std::str::FromStr>(args: &[String], name: &str) -> Option<T> {
         .and_then(|v| v.parse().ok())
 }
 
+/// Remove this process's scratch directory (the `inotify` scenario) on exit.
+extern "C" fn remove_scratch_at_exit() {
+    scenarios::inotify::cleanup();
+}
+
 fn main() {
     let args: Vec<String> = std::env::args().collect();
+    // SAFETY: registering a handler that only removes a directory.
+    unsafe { libc::atexit(remove_scratch_at_exit) };
     alloc::init_debug();
     segv::install_handler();
     segv::register_stack();
